@@ -60,7 +60,7 @@ func (t Thing) Fmt(f string, n int, rest ...interface{}) string { return f }
 func (t Thing) Two() (int, error)                               { return 1, nil }
 func (t Thing) Nothing()                                        {}
 func (t Thing) TakesPtr(p *Thing) string                        { return "tp" }
-func (t Thing) TakesIface(v interface{}) string                 { return fmt.Sprint(v) }
+func (t Thing) TakesIface(v interface{}) string                 { return fmt.Sprintf("%T", v) }
 func (t Thing) TakesFloat(f float64) float64                    { return f * 2 }
 func (t Thing) TakesSlice(s []int) int                          { return len(s) }
 func (t Thing) TakesUint(u uint64) uint64                       { return u }
